@@ -89,6 +89,9 @@ fn apply_q(v: &mut Vector<Q>, op: &str, t: &mut Toks, cx: &mut Ctx) -> String {
     match op {
         "sort" => { let r = guarded(|| v.sort()).map(|_| String::new()); let mut e = before.clone(); e.sort(); finish(v, &before, op, Exp::State(e), &r, cx); outcome(&r) }
         "resize" => { let n = t.usize(); let r = guarded(|| v.resize(n)).map(|_| String::new()); let mut e = before.clone(); e.resize(n, Q::int(0)); finish(v, &before, op, Exp::State(e), &r, cx); outcome(&r) }
+        "sortdesc" => { let r = guarded(|| v.sort_by(|a, b| b.partial_cmp(a).unwrap())).map(|_| String::new()); let mut e = before.clone(); e.sort(); e.reverse(); finish(v, &before, op, Exp::State(e), &r, cx); outcome(&r) }
+        "ones" | "zeros" => { let n = t.usize(); let r = guarded(|| if op == "ones" { Vector::<Q>::ones(n) } else { Vector::<Q>::zeros(n) }); let e = vec![Q::int(if op == "ones" { 1 } else { 0 }); n];
+            let r = r.map(|x| { *v = x; String::new() }); finish(v, &before, op, Exp::State(e), &r, cx); outcome(&r) }
         "abs" => { let r = guarded(|| v.abs()); if let Ok(a) = &r { cx.check((0..before.len()).all(|i| a[i] == if before[i] < Q::int(0) { -before[i] } else { before[i] }), "abs"); } outcome(&r.map(|x| wr_vector(&x))) }
         "norm1" => { let r = guarded(|| v.norm_1()); let mut s = Q::int(0); for x in &before { s += if *x < Q::int(0) { -*x } else { *x }; } if let Ok(a) = &r { cx.check(*a == s, "norm_1 != sum |x_i|"); } outcome(&r.map(|x| x.wr())) }
         _ => apply(v, op, t, cx).unwrap_or_else(|| panic!("HARNESS: unknown vector op {}", op)),
@@ -202,7 +205,7 @@ pub fn gen_op<T: Sc>(rng: &mut Rng, n: &mut usize, bad_pct: usize) -> String {
     let bad = rng.chance(bad_pct);
     let sc = |rng: &mut Rng| T::gen(rng, 15, 0).wr();
     let idx = |rng: &mut Rng, n: usize, bad: bool| if bad || n == 0 { n + rng.below(3) } else { rng.below(n) };
-    let extra: &[&str] = match T::TAG { "q" => &["sort", "resize", "abs", "norm1"], "f" => &["resize", "norm2", "normp", "norminf", "lsmul", "abs", "norm1"], _ => &["conj", "real", "norminf", "abs"] };
+    let extra: &[&str] = match T::TAG { "q" => &["sort", "resize", "abs", "norm1", "sortdesc", "ones", "zeros"], "f" => &["resize", "norm2", "normp", "norminf", "lsmul", "abs", "norm1"], _ => &["conj", "real", "norminf", "abs"] };
     let k = rng.below(26 + 3);
     match k {
         0 | 1 => { *n += 1; format!("push {}", sc(rng)) }
@@ -228,7 +231,7 @@ pub fn gen_op<T: Sc>(rng: &mut Rng, n: &mut usize, bad_pct: usize) -> String {
         23 => format!("index {}", idx(rng, *n, bad)),
         24 => format!("setindex {} {}", idx(rng, *n, bad), sc(rng)),
         25 => { *n += 1; format!("clonemut {}", sc(rng)) }
-        _ => { let e = *rng.pick(extra); match e { "resize" => { *n = rng.below(12); format!("resize {}", *n) } "normp" => format!("normp {}", (*rng.pick(&[1.0f64, 2.0, 3.0, 1.5, 8.0])).wr()), "lsmul" => format!("lsmul {}", f64::gen(rng, 10, 0).wr()), x => x.to_string() } }
+        _ => { let e = *rng.pick(extra); match e { "resize" => { *n = rng.below(12); format!("resize {}", *n) } "ones" | "zeros" => { *n = rng.below(10); format!("{} {}", e, *n) } "normp" => format!("normp {}", (*rng.pick(&[1.0f64, 2.0, 3.0, 1.5, 8.0])).wr()), "lsmul" => format!("lsmul {}", f64::gen(rng, 10, 0).wr()), x => x.to_string() } }
     }
 }
 
